@@ -117,7 +117,7 @@ pub struct OStats {
 type Activity = Arc<Mutex<Vec<(u64, std::thread::ThreadId, bool)>>>;
 
 pub fn run_case(case: &OwnerCase) -> Result<OStats, String> {
-    raindb::verif::set_level_base_bytes(0);
+    crate::engine::set_level_limits(0);
     // one pseudo client that is never "done": holds last for their full duration
     let _sched = if case.directives.is_empty() {
         None
